@@ -242,10 +242,14 @@ def w_deflation(ctx, rng, idx):
         g = gen.rand_tt(rng, dims, [1] * d, gen.feasible_ranks(dims, [1] * d, [1] + [int(rng.integers(1, 4)) for _ in range(d - 1)] + [1]), cplx)
         nA = float(np.linalg.norm(mat(dense(A2)), 2))
     rep = int(rng.integers(1, 3))
-    ctx.describe({'op': 'evp.als deflation', 'dims': dims, 'complex': cplx, 'nprev': nprev, 'shift': shift, 'repeats': rep, 'ranks': g.ranks})
-    tags = ['deflation'] + (['complex'] if cplx else [])
-    ok1, r1 = call('evp.als', evp.als, A, g, prop=P, tags=tags, refusals=(sla.LinAlgError, np.linalg.LinAlgError), previous=prev, shift=shift, solver='eigh', repeats=rep, conv_eps=0.0)
-    ok2, r2 = call('evp.als', evp.als, A2, g, prop=P, tags=tags, refusals=(sla.LinAlgError, np.linalg.LinAlgError), solver='eigh', repeats=rep, conv_eps=0.0)
+    kwg = {}
+    if rng.random() < 0.35:  # deflation in a generalised problem: the pencil (A + shift * sum p p^H, B)
+        with probe.oracle():
+            kwg['operator_gevp'] = gen.hermitian_tt(rng, dims, 1, cplx if rng.random() < 0.6 else (not cplx), hpd=True, eps=1.0)
+    ctx.describe({'op': 'evp.als deflation', 'dims': dims, 'complex': cplx, 'nprev': nprev, 'shift': shift, 'repeats': rep, 'ranks': g.ranks, 'gevp': bool(kwg)})
+    tags = ['deflation'] + (['complex'] if cplx else []) + (['gevp'] if kwg else [])
+    ok1, r1 = call('evp.als', evp.als, A, g, prop=P, tags=tags, refusals=(sla.LinAlgError, np.linalg.LinAlgError), previous=prev, shift=shift, solver='eigh', repeats=rep, conv_eps=0.0, **kwg)
+    ok2, r2 = call('evp.als', evp.als, A2, g, prop=P, tags=tags, refusals=(sla.LinAlgError, np.linalg.LinAlgError), solver='eigh', repeats=rep, conv_eps=0.0, **kwg)
     if not (ok1 and ok2):
         ctx.skip('evp_micro_solver_refused')
         return
